@@ -18,6 +18,9 @@ static inline i128 bval(B b){ return (i128)(((u128)b.f1.f0.a[0].f1 << 64) | (u12
 static inline i128 ZM_mul(i128 a, i128 b){ return a * b; }
 static inline i128 ZM_div(i128 a, i128 b){ return a / b; }
 static inline i128 ZM_rem(i128 a, i128 b){ return a % b; }
+static inline i128 ZM_mul_pure(i128 a, i128 b){ return a * b; }
+static inline i128 ZM_div_pure(i128 a, i128 b){ return a / b; }
+static inline i128 ZM_rem_pure(i128 a, i128 b){ return a % b; }
 #else
 static inline i128 bval(B b){ return ZV(&b.f1); }
 #endif
@@ -59,10 +62,10 @@ static inline B x_mul(B a, B b){
   if (!b_inf(a) && bval(a) == 0) return mkfin(0);
   if (!b_inf(b) && bval(b) == 0) return mkfin(0);
   if (b_inf(a) || b_inf(b)) return mkinf(((bval(a) > 0) == (bval(b) > 0)) ? 1 : -1);
-  return mkfin(ZM_mul(bval(a), bval(b))); }
+  return mkfin(ZM_mul_pure(bval(a), bval(b))); }
 /* a / b, b != 0, with the class's convention finite / infinite = 0 */
 static inline B x_div(B a, B b){
-  if (!b_inf(a) && !b_inf(b)) return mkfin(ZM_div(bval(a), bval(b)));
+  if (!b_inf(a) && !b_inf(b)) return mkfin(ZM_div_pure(bval(a), bval(b)));
   if (!b_inf(a)) return mkfin(0);
   if (!b_inf(b)) return bval(b) > 0 ? a : x_neg(a);
   return mkinf(((bval(a) > 0) == (bval(b) > 0)) ? 1 : -1); }
